@@ -25,7 +25,6 @@ import traceback
 VERIF = os.path.dirname(os.path.dirname(os.path.abspath(__file__)))
 REPO = os.environ.get('GIVERIF_REPO', '/repo')
 LEAN_DIR = os.path.join(VERIF, 'lean')
-DRIVER_BIN = os.path.join(LEAN_DIR, '.lake', 'build', 'bin', 'gidriver')
 PYTHON = '/venv/bin/python'
 ALLOWED_AXIOMS = {'propext', 'Classical.choice', 'Quot.sound'}
 FORBIDDEN = re.compile(r'\b(sorry|admit|native_decide|bv_decide|implemented_by|unsafe)\b|^\s*axiom\s|maxHeartbeats\s+0\b',
@@ -86,9 +85,10 @@ def strip_lean_comments(text):
 class Driver(object):
     """The compiled Lean model driver: one JSON object per line in, one per line out."""
 
-    def __init__(self):
-        if not os.path.exists(DRIVER_BIN):
-            raise HarnessError('model driver not built: %s' % DRIVER_BIN)
+    def __init__(self, prop):
+        self.bin = os.path.join(LEAN_DIR, '.lake', 'build', 'bin', 'gidriver_' + prop.lower())
+        if not os.path.exists(self.bin):
+            raise HarnessError('model driver not built: %s' % self.bin)
         self.calls = 0
 
     def batch(self, requests):
@@ -97,7 +97,7 @@ class Driver(object):
         if not requests:
             return []
         data = ''.join(json.dumps(r, ensure_ascii=True) + '\n' for r in requests)
-        p = subprocess.run([DRIVER_BIN], input=data.encode('ascii'), stdout=subprocess.PIPE,
+        p = subprocess.run([self.bin], input=data.encode('ascii'), stdout=subprocess.PIPE,
                            stderr=subprocess.PIPE, timeout=3600)
         if p.returncode != 0:
             raise HarnessError('driver exited %d: %s' % (p.returncode, p.stderr.decode('utf-8', 'replace')[:2000]))
@@ -146,7 +146,7 @@ class Ctx(object):
     @property
     def driver(self):
         if self._driver is None:
-            self._driver = Driver()
+            self._driver = Driver(self.prop)
         return self._driver
 
     def cleanup(self):
@@ -179,12 +179,14 @@ class Ctx(object):
                                        % (name, out.strip()[-400:]))
         return outs
 
-    def build_and_audit(self, modules, props_module, extra_targets=('gidriver',)):
+    def build_and_audit(self, modules, props_module, extra_targets=None):
         """`lake build` the property's modules and the driver, grep for forbidden
         constructs, and `#print axioms` every theorem of the Props module.
         Fills self.proof; appends to self.broken what no longer checks."""
         res = {'modules': list(modules), 'theorems': {}, 'build_ok': False, 'forbidden': [],
                'build_log_tail': ''}
+        if extra_targets is None:
+            extra_targets = ('gidriver_' + self.prop.lower(),)
         with lake_lock():
             # the driver first: even if a proof breaks we still need the executable model
             for tgt in extra_targets:
